@@ -27,6 +27,14 @@ def jAOp (j : Json) : Except String AOp := do
   | "mono" => pure (.mono (← jBool (← arg x "forward")) (← jList jCluster (← arg x "clusters")))
   | _ => throw s!"unknown aop {k}"
 
+/-- `null` (no read of the record has exons) or `[reads_start, reads_end]` -/
+def jSpan (j : Json) : Except String (Option (Int × Int)) :=
+  match j with
+  | .null => pure none
+  | _ => do
+    let a ← jArr j
+    pure (some (← jInt a[0]!, ← jInt a[1]!))
+
 /-- one record of the chromosome; the heuristic answers (what the `detect_similar_isoforms` stub returned for the whole and for
     the pre-filtered storage, coverage terms, assigner answers, joined gene ids) are the ones recorded on the real run -/
 def jRegion (j : Json) : Except String RegionIn := do
@@ -45,7 +53,8 @@ def jRegion (j : Json) : Except String RegionIn := do
          post := fun _ m => some m,
          covTerm := fun m => (amGet? cov m.tid).getD 0,
          ins1 := ← jList jAssignIn (← arg j "ins1"), ins2 := ← jList jAssignIn (← arg j "ins2"),
-         newGene := fun m => (amGet? genes m.tid).getD m.gene }
+         newGene := fun m => (amGet? genes m.tid).getD m.gene,
+         span := ← jSpan (← arg j "span") }
 
 def keyLe (a b : ChainKey) : Bool :=
   if a.1 = b.1 then pathLexLe a.2 b.2 else decide (a.1.toString ≤ b.1.toString)
@@ -58,11 +67,22 @@ def ofChainEntry (p : ChainKey × String) : Json := Json.arr #[ofChainKey p.1, o
 
 def entryLe (a b : ChainKey × String) : Bool := keyLe a.1 b.1
 
+/-- an entry of the current dict: `[[strand, chain], model]` -/
+def jModelEntry (j : Json) : Except String (ChainKey × TModel) := do
+  let a ← jArr j
+  pure (← jChainKey a[0]!, ← jTModel a[1]!)
+
+/-- compared as (key, id of the model, its exons) -/
+def ofModelEntry (p : ChainKey × TModel) : Json := Json.arr #[ofChainKey p.1, ofStr p.2.tid, ofIvList p.2.exons]
+
+def mentryLe (a b : ChainKey × TModel) : Bool := keyLe a.1 b.1
+
 def jRepair (j : Json) : Except String Repair := do
   match ← jStr j with
   | "orig" => pure .none
   | "b2b4dd9" => pure .dropOnly
-  | "keep" => pure .keepReads
+  | "0c8e711" => pure .renameCopy
+  | "join" => pure .joinEarlier
   | v => throw s!"unknown variant {v}"
 
 def ofRegion (s : Store) : Json :=
@@ -74,14 +94,14 @@ def ops : List (String × Handler) := [
       let forb ← jList jNat (← arg j "forbidden")
       let st ← arg j "state"
       let cs : ChrState := { detected := ← jList jStr (← arg st "detected"), idv := ← jNat (← arg st "idv"),
-                             reported := ← jList jChainEntry (← arg st "reported") }
+                             reported := ← jList jModelEntry (← arg st "reported") }
       let regs ← jList jRegion (← arg j "regions")
       let repaired ← jRepair (← arg j "variant")
       match runChromosome repaired (nextId forb (forb.length + 1)) regs cs [] with
       | none => pure (jErr "error")
       | some (cs', reps) =>
         pure (Json.mkObj [("detected", ofList ofStr cs'.detected), ("idv", ofNat cs'.idv),
-                          ("reported", ofList ofChainEntry (cs'.reported.mergeSort entryLe)),
+                          ("reported", ofList ofModelEntry (cs'.reported.mergeSort mentryLe)),
                           ("regions", ofList ofRegion reps)])),
   -- the step of fix b2b4dd9 (kept as a variant): a repeated chain is deleted
   ("drop_reported", fun j => do
@@ -90,7 +110,18 @@ def ops : List (String × Handler) := [
       match s.dropReported rep with
       | none => pure (jErr "error")
       | some (s', rep') => pure (Json.mkObj [("store", ofStore s'), ("reported", ofList ofChainKey (rep'.mergeSort keyLe))])),
-  -- the current `drop_novel_chains_reported_elsewhere`: storage after the call (local copies under the first id), the ids of
+  -- the current `drop_novel_chains_reported_elsewhere(read_assignment_storage)`: storage after the call (kept models + copies of
+  -- the earlier models), the ids of the models that will be dumped, the new dict
+  ("drop_join", fun j => do
+      let s ← jStore (← arg j "store")
+      let rep ← jList jModelEntry (← arg j "reported")
+      let span ← jSpan (← arg j "span")
+      match s.dropJoin rep span with
+      | none => pure (jErr "error")
+      | some (s', final, rep') =>
+        pure (Json.mkObj [("store", ofStore s'), ("final", ofList ofStr (final.map (·.tid))),
+                          ("reported", ofList ofModelEntry (rep'.mergeSort mentryLe))])),
+  -- the step of fix 0c8e711 (kept as a variant): storage after the call (local copies under the first id), the ids of
   -- `repeated_chain_models`, the models that will be dumped, the new dict
   ("drop_keep", fun j => do
       let s ← jStore (← arg j "store")
